@@ -72,6 +72,22 @@ UNK = V('unk')
 SCALAR = V('scalar')
 
 
+def replace_term(t, a, b):
+    if t == a:
+        return b
+    if isinstance(t, tuple):
+        return tuple(replace_term(x, a, b) for x in t)
+    return t
+
+
+def subst_term(t, env):
+    sub = env.get('#subst')
+    if sub is not None:
+        for a, b in sorted(sub.a, key=repr):
+            t = replace_term(t, a, b)
+    return t
+
+
 class LayoutTyper(Structured):
     """Types one function.  `report(rule, node, ok, detail)` receives obligations."""
 
@@ -153,7 +169,7 @@ class LayoutTyper(Structured):
             b = self.ev(e.value, env, quiet=True)
             if b.kind == 'fac':
                 return b.a
-            return ('domof', U(e.value))
+            return subst_term(('domof', U(e.value)), env)
         if isinstance(e, ast.Call) and isinstance(e.func, ast.Attribute) and e.func.attr in DOM_METHODS:
             base = self.dom_term(e.func.value, env)
             if base is None or len(e.args) != 1 or e.keywords:
@@ -669,6 +685,19 @@ class LayoutTyper(Structured):
                 and len(t.args) == 1 and isinstance(t.args[0], ast.Name):
             if truth:
                 st[t.args[0].id] = SCALAR
+        if isinstance(t, ast.Compare) and len(t.ops) == 1 and isinstance(t.ops[0], (ast.Eq, ast.NotEq)):
+            # `if A.domain == B.domain:` (Domain.__eq__ is order-sensitive): unify the two terms on the equal branch
+            da, db = self.dom_term(t.left, st), self.dom_term(t.comparators[0], st)
+            if da is not None and db is not None and da != db and truth == isinstance(t.ops[0], ast.Eq):
+                old = st.get('#subst')
+                pairs = set(old.a) if old is not None else set()
+                pairs.add((db, da))
+                for k, v in list(st.items()):
+                    if isinstance(v, V) and v.kind in ('fac', 'arr', 'dom', 'axes'):
+                        st[k] = V(v.kind, replace_term(v.a, db, da), replace_term(v.b, db, da) if v.b else v.b,
+                                  deps=v.deps, flags=v.flags)
+                st['#subst'] = V('subst', frozenset(pairs))
+                return st
         if isinstance(t, ast.Compare) and len(t.ops) == 1 and isinstance(t.ops[0], (ast.Eq, ast.NotEq)) and \
                 isinstance(t.left, ast.Name) and isinstance(t.comparators[0], ast.Constant):
             key = '#flag:' + t.left.id
